@@ -252,6 +252,8 @@ struct PollRec {
     /// not before this time (None while it has never been scheduled under this connection state)
     not_before: u64,
     demanded_at: Option<u64>,
+    /// demanded while this very poll was running: the run in progress may count as the demanded one, or another may follow at once
+    demand_during_run: bool,
     removed: bool,
     running: bool,
     runs: u32,
@@ -328,6 +330,7 @@ pub fn analyse(
                             period: *period,
                             not_before: *t + *period,
                             demanded_at: None,
+                            demand_during_run: false,
                             removed: false,
                             running: false,
                             runs: 0,
@@ -338,7 +341,12 @@ pub fn analyse(
                                 .iter_mut()
                                 .find(|p| !p.removed && p.assoc == *addr && p.classes == *classes)
                             {
-                                p.demanded_at = Some(*t);
+                                if p.running {
+                                    p.demand_during_run = true;
+                                    bump("probe.poll_demanded_during_its_own_run", 1);
+                                } else {
+                                    p.demanded_at = Some(*t);
+                                }
                             }
                         }
                         _ => {
@@ -495,7 +503,7 @@ pub fn analyse(
                         }
                         Some(i) => {
                             // S4: no earlier than one period after the previous completion, unless demanded
-                            let demanded = polls[i].demanded_at.is_some();
+                            let demanded = polls[i].demanded_at.is_some() || polls[i].demand_during_run;
                             if polls[i].known && start_t < polls[i].not_before && !demanded {
                                 fail!(
                                     "C19/poll-earlier-than-its-period",
@@ -515,7 +523,7 @@ pub fn analyse(
                             // scheduling slack)
                             if polls[i].known
                                 && start_t > due + 1000
-                                && idle_since(&hist[..pos], due, start_t)
+                                && has_idle_gap(&hist[..pos], due, start_t, 1000, case.latency.0)
                             {
                                 fail!(
                                     "C19/poll-late-on-idle-channel",
@@ -530,6 +538,7 @@ pub fn analyse(
                                 nontrivial = true;
                             }
                             polls[i].demanded_at = None;
+                            polls[i].demand_during_run = false;
                             polls[i].running = true;
                             polls[i].runs += 1;
                             bump("probe.poll_runs", 1);
@@ -720,7 +729,7 @@ pub fn analyse(
                 && !p.running
                 && p.known
                 && due + 1000 < run.end_ms
-                && idle_since(&hist, due, run.end_ms)
+                && has_idle_gap(&hist, due, run.end_ms, 1000, case.latency.0)
             {
                 fail!(
                     "C19/poll-starved",
@@ -800,7 +809,9 @@ pub fn analyse(
         "probe.master_polls_per_event_x100",
         run.master_polls * 100 / events,
     );
-    if run.master_polls > 200 * events + 2000 {
+    // (measured on the unchanged library: never more than one poll per recorded event plus twenty; the allowance is three
+    // per event plus a hundred - a master waking on a fixed short tick instead of its earliest deadline exceeds it)
+    if run.master_polls > 3 * events + 100 {
         fail!(
             "C19/busy-waiting",
             "",
@@ -812,6 +823,66 @@ pub fn analyse(
 }
 
 /// nothing occupied or disturbed the channel from `from` on (within this prefix of the history), and it was connected
+/// Was there, between `from` and `to`, a stretch of at least `min_len` ms in which the channel was connected and had nothing to do
+/// (no task running, no link status check in progress)? "Starved while the channel is otherwise idle" is judged against such a
+/// stretch: what else ran before or after it does not excuse leaving a due poll waiting through it.
+fn has_idle_gap(hist: &[(u64, H)], from: u64, to: u64, min_len: u64, latency: u64) -> bool {
+    let mut connected = false;
+    let mut open = 0i32;
+    // the channel is quiet from this instant on (None: busy or not connected)
+    let mut quiet_since: Option<u64> = None;
+    let mut link_busy_until = 0u64;
+    let long_enough = |q: Option<u64>, until: u64| -> bool {
+        match q {
+            Some(q) => {
+                let a = q.max(from);
+                let b = until.min(to);
+                b >= a + min_len
+            }
+            None => false,
+        }
+    };
+    for (_, h) in hist {
+        match h {
+            H::Client { t, state } => {
+                if long_enough(quiet_since, *t) {
+                    return true;
+                }
+                connected = state == "Connected";
+                open = 0;
+                quiet_since = if connected { Some((*t).max(link_busy_until)) } else { None };
+            }
+            H::TaskStart { t, .. } => {
+                if long_enough(quiet_since, *t) {
+                    return true;
+                }
+                open += 1;
+                quiet_since = None;
+            }
+            H::TaskSuccess { t, .. } | H::TaskFail { t, .. } => {
+                open -= 1;
+                if open <= 0 && connected {
+                    quiet_since = Some((*t).max(link_busy_until));
+                }
+            }
+            H::LinkRx { t, .. } | H::Closed { t, .. } => {
+                // (link status requests occupy the channel as well; three seconds cover every response timeout generated)
+                let written = t.saturating_sub(latency);
+                if long_enough(quiet_since, written) {
+                    return true;
+                }
+                link_busy_until = link_busy_until.max(*t + 3000);
+                if let Some(q) = quiet_since {
+                    quiet_since = Some(q.max(link_busy_until));
+                }
+            }
+            _ => {}
+        }
+    }
+    connected && open <= 0 && long_enough(quiet_since, to)
+}
+
+#[allow(dead_code)]
 fn idle_since(hist: &[(u64, H)], from: u64, _to: u64) -> bool {
     let mut connected = false;
     let mut open = 0i32;
